@@ -99,9 +99,9 @@ class C01Machine(Machine):
         if config.get("huge"):
             up = config["uri_pool"]
             nb = max(0, len(up) - 620)
-            self.probes = tokens.uri_probes(up[:nb] + up[nb::9], extra_tails=("1",), alphabet=("a",))
+            self.probes = tokens.uri_probes(up[:nb] + up[nb::9], extra_tails=("1",), alphabet=("a",), shapes_for=6)
         elif config.get("large"):
-            self.probes = tokens.uri_probes(config["uri_pool"], extra_tails=("1",), alphabet=("a", "/"))
+            self.probes = tokens.uri_probes(config["uri_pool"], extra_tails=("1",), alphabet=("a", "/"), shapes_for=8)
         else:
             self.probes = tokens.uri_probes(config["uri_pool"])
         self.saw_nested = False
